@@ -27,7 +27,7 @@ open OFV OFV.Go OFV.Model InstrAux
 
 /-! ### plain OpenFlow actions -/
 
-/-- ActionHeader (CopyTtlOut/In, DecMplsTtl, PopPbb): 4 bytes reported, 4 bytes written -/
+/-- a bare ActionHeader value: 4 bytes reported, 4 bytes written -/
 theorem actionHeader_size (v : V) : SizeOK ActionHeader.lenM ActionHeader.marshalM v := by
   intro l v1 bs v2 h1 h2
   obtain ⟨rfl, rfl⟩ := same_ok _ _ _ _ h1
@@ -36,7 +36,7 @@ theorem actionHeader_size (v : V) : SizeOK ActionHeader.lenM ActionHeader.marsha
   obtain ⟨rfl, _⟩ := same_ok _ _ _ _ h2
   exact ActionHeader.bytes_length _ _ hb
 
-/-- ActionMplsTtl: Len/MarshalBinary are the promoted ActionHeader methods (4 bytes; the ttl is never written) -/
+/-- ActionMplsTtl: 8 bytes reported, 8 written (header, the ttl, 3 bytes of padding) -/
 theorem actionMplsTtl_size (v : V) : SizeOK ActionMplsTtl.lenM ActionMplsTtl.marshalM v := by
   intro l v1 bs v2 h1 h2
   obtain ⟨rfl, rfl⟩ := same_ok _ _ _ _ h1
@@ -44,10 +44,11 @@ theorem actionMplsTtl_size (v : V) : SizeOK ActionMplsTtl.lenM ActionMplsTtl.mar
   split at h2
   · obtain ⟨b, hb, h2⟩ := bind_ok_inv _ _ _ h2
     obtain ⟨rfl, _⟩ := same_ok _ _ _ _ h2
-    exact ActionHeader.bytes_length _ _ hb
+    have := ActionHeader.bytes_length _ _ hb
+    simp [this]
   · exact absurd h2 (by simp)
 
-/-- ActionNwTtl: as ActionMplsTtl -/
+/-- ActionNwTtl: as ActionMplsTtl, 8 bytes -/
 theorem actionNwTtl_size (v : V) : SizeOK ActionNwTtl.lenM ActionNwTtl.marshalM v := by
   intro l v1 bs v2 h1 h2
   obtain ⟨rfl, rfl⟩ := same_ok _ _ _ _ h1
@@ -55,7 +56,8 @@ theorem actionNwTtl_size (v : V) : SizeOK ActionNwTtl.lenM ActionNwTtl.marshalM 
   split at h2
   · obtain ⟨b, hb, h2⟩ := bind_ok_inv _ _ _ h2
     obtain ⟨rfl, _⟩ := same_ok _ _ _ _ h2
-    exact ActionHeader.bytes_length _ _ hb
+    have := ActionHeader.bytes_length _ _ hb
+    simp [this]
   · exact absurd h2 (by simp)
 
 /-- ActionOutput: 16 bytes -/
@@ -376,9 +378,11 @@ theorem nxConnTrack_size' (v : V) : SizeOK NXActionConnTrack.lenM NXActionConnTr
 /-! ### alignment -/
 
 /-- the action kinds that pad: whatever they hold, the size they report is a multiple of 8
-    (fixed 8/16-byte kinds, and the kinds that round up: SetField, CTNAT, Learn, Note, RegLoad2) -/
+    (fixed 8/16-byte kinds — now including the two TTL setters —, and the kinds that round up: SetField, CTNAT, Learn,
+    Note, RegLoad2) -/
 theorem action_len_aligned (v : V)
-    (hk : v.kind ∈ ["ActionOutput", "ActionSetqueue", "ActionGroup", "ActionDecNwTtl", "ActionPush", "ActionPopVlan",
+    (hk : v.kind ∈ ["ActionOutput", "ActionSetqueue", "ActionGroup", "ActionMplsTtl", "ActionNwTtl", "ActionDecNwTtl",
+      "ActionPush", "ActionPopVlan",
       "ActionPopMpls", "ActionSetField", "NXActionCTNAT", "NXActionLearn", "NXActionNote", "NXActionRegLoad2",
       "NXActionController"])
     (l : UInt16) (v1 : V) (h : Action.lenM v = .ok (l, v1)) : l.toNat % 8 = 0 := by
@@ -418,11 +422,24 @@ theorem action_len_aligned (v : V)
        · exact absurd h (by simp))
     | exact absurd h (by simp)
 
-/-- NOT aligned: the header-only action (COPY_TTL_OUT/IN, DEC_MPLS_TTL, POP_PBB) and the two TTL setters report —
-    and encode to — 4 bytes, where the OpenFlow 1.3 wire format has 8 (4 bytes of padding are missing) -/
-theorem action_len_unaligned (v : V) :
-    ActionHeader.lenM v = .ok (4, v) ∧ ActionMplsTtl.lenM v = .ok (4, v) ∧ ActionNwTtl.lenM v = .ok (4, v) :=
-  ⟨rfl, rfl, rfl⟩
+/-- the former defect is gone: the two TTL setters report — and, by `actionMplsTtl_size` / `actionNwTtl_size`, encode
+    to — 8 bytes, the OpenFlow 1.3 wire size (header, ttl, 3 bytes of padding), whatever they hold.
+    (Before the repair both reported 4 bytes; this replaces the `= .ok (4, v)` clauses of `action_len_unaligned`.) -/
+theorem action_ttl_len (v : V) : ActionMplsTtl.lenM v = .ok (8, v) ∧ ActionNwTtl.lenM v = .ok (8, v) :=
+  ⟨rfl, rfl⟩
+
+/-- … and the header-only OpenFlow actions (COPY_TTL_OUT/IN, DEC_MPLS_TTL, POP_PBB) are now decoded into the 8-byte
+    kind ActionDecNwTtl (header + 4 bytes of padding): every non-experimenter action type DecodeAction knows maps to
+    a kind whose reported size is a multiple of 8 -/
+theorem actionTypeTable_aligned (t : Nat) (a : V) (h : (t, a) ∈ actionTypeTable)
+    (l : UInt16) (v1 : V) (hl : Action.lenM a = .ok (l, v1)) : l.toNat % 8 = 0 := by
+  simp only [actionTypeTable, List.mem_cons, Prod.mk.injEq, List.mem_nil_iff, or_false] at h
+  rcases h with h | h | h | h | h | h | h | h | h | h | h | h | h | h | h | h <;> obtain ⟨_, rfl⟩ := h <;>
+    exact action_len_aligned _ (by decide) l v1 hl
+
+/-- STILL not aligned: a bare ActionHeader value (no decoder produces it any more; it can only be built by hand)
+    reports — and encodes to — 4 bytes -/
+theorem action_len_unaligned (v : V) : ActionHeader.lenM v = .ok (4, v) := rfl
 
 
 /-! ### instructions -/
@@ -460,7 +477,7 @@ theorem instrWriteMetadata_size (v : V) : SizeOK InstrWriteMetadata.lenM InstrWr
     simp [this, makeCopy_length]
   · exact absurd h2 (by simp)
 
-/-- InstrMeter: the promoted InstrHeader methods — 4 bytes reported, 4 written (the meter id is never encoded) -/
+/-- InstrMeter: 8 bytes reported, 8 written (header + meter id) -/
 theorem instrMeter_size (v : V) : SizeOK InstrMeter.lenM InstrMeter.marshalM v := by
   intro l v1 bs v2 h1 h2
   obtain ⟨rfl, rfl⟩ := same_ok _ _ _ _ h1
@@ -468,7 +485,8 @@ theorem instrMeter_size (v : V) : SizeOK InstrMeter.lenM InstrMeter.marshalM v :
   split at h2
   · obtain ⟨b, hb, h2⟩ := bind_ok_inv _ _ _ h2
     obtain ⟨rfl, _⟩ := same_ok _ _ _ _ h2
-    exact InstrHeader.bytes_length _ _ hb
+    have := InstrHeader.bytes_length _ _ hb
+    simp [this]
   · exact absurd h2 (by simp)
 
 /-- InstrActions (apply / write / clear actions): header (with Length = Len()), pad and the complete encodings of
@@ -802,7 +820,8 @@ theorem helloElemHeader_size (v : V) : SizeOK HelloElemHeader.lenM HelloElemHead
   obtain ⟨rfl, _⟩ := same_ok _ _ _ _ h2
   exact HelloElemHeader.bytes_length _ _ hb
 
-/-- HelloElemVersionBitmap: 4 + 4 per bitmap -/
+/-- HelloElemVersionBitmap: 4 + 4 per bitmap rounded up to a multiple of 8 is reported, and exactly that many bytes are
+    allocated (header with the stored Length = 4 + 4 per bitmap, the bitmaps, zero padding) -/
 theorem helloElemVersionBitmap_size (v : V) : SizeOK HelloElemVersionBitmap.lenM HelloElemVersionBitmap.marshalM v := by
   intro l v1 bs v2 h1 h2
   unfold HelloElemVersionBitmap.lenM at h1
@@ -813,6 +832,29 @@ theorem helloElemVersionBitmap_size (v : V) : SizeOK HelloElemVersionBitmap.lenM
   · simp only [hl, Res.bind_ok] at h2
     revert h2; size_fill
   · exact absurd h2 (by simp)
+
+/-- the size a HelloElemVersionBitmap reports is a multiple of 8, whatever the number of bitmaps -/
+theorem helloElemVersionBitmap_len_aligned (v : V) (l : UInt16) (v1 : V)
+    (h : HelloElemVersionBitmap.lenM v = .ok (l, v1)) : l.toNat % 8 = 0 := by
+  unfold HelloElemVersionBitmap.lenM at h
+  obtain ⟨l', hl, h'⟩ := bind_ok_inv _ _ _ h
+  obtain ⟨rfl, _⟩ := same_ok _ _ _ _ h'
+  unfold HelloElemVersionBitmap.len at hl
+  split at hl
+  · cases hl
+    exact round8_aligned _
+  · exact absurd hl (by simp)
+
+/-- NewHelloElemVersionBitmap() (one bitmap): 8 bytes reported, 8 written; with two bitmaps 16 reported, 16 written
+    (12 bytes of content — the stored Length — and 4 bytes of padding) -/
+theorem helloElemVersionBitmap_size_examples :
+    HelloElemVersionBitmap.lenM HelloElemVersionBitmap.new = .ok (8, HelloElemVersionBitmap.new) ∧
+    HelloElemVersionBitmap.marshalM HelloElemVersionBitmap.new = .ok ([0, 1, 0, 8, 0, 0, 0, 18], HelloElemVersionBitmap.new) ∧
+    (let v : V := .obj "HelloElemVersionBitmap" [.obj "HelloElemHeader" [.num 1, .num 8], .list [.num 18, .num 1]]
+     HelloElemVersionBitmap.lenM v = .ok (16, v) ∧
+     HelloElemVersionBitmap.marshalM v = .ok ([0, 1, 0, 12, 0, 0, 0, 18, 0, 0, 0, 1, 0, 0, 0, 0],
+       .obj "HelloElemVersionBitmap" [.obj "HelloElemHeader" [.num 1, .num 12], .list [.num 18, .num 1]])) :=
+  ⟨rfl, rfl, rfl, rfl⟩
 
 /-- the HelloElem interface -/
 theorem helloElem_size (v : V) : SizeOK HelloElem.lenM HelloElem.marshalM v := by
